@@ -528,6 +528,17 @@ class Evaluator:
 
     def exec_For(self, s, st):
         it = self.eval(s.iter, st)
+        if isinstance(it, Kw) and it.rest is None:
+            it = Tup([Const(k) for k in it.items])
+        if isinstance(it, Term) and it.head == 'method:items' and isinstance(it.args[0], Kw) and it.args[0].rest is None:
+            it = Tup([Tup([Const(k), v]) for k, v in it.args[0].items.items()])
+        if isinstance(it, Tup) and len(it.items) <= 24 and not s.orelse:
+            # a loop over a short literal table is unrolled (no loop-carried abstraction needed)
+            for item in it.items:
+                self.assign(s.target, item, st, s)
+                if not self.exec_block(s.body, st):
+                    return False
+            return True
         lid = fresh_serial()
         names, stores = self.assigned_in(s.body)
         tnames = {x.id for x in ast.walk(s.target) if isinstance(x, ast.Name)}
@@ -564,6 +575,7 @@ class Evaluator:
         body = st.clone()
         self.havoc(body, names, stores, lid, 'in', targets=tnames)
         self.loops.append(ctx)
+        mark_events = len(self.events)
         try:
             self.assign(s.target, elem, body, s)
             self.exec_block(s.body, body)
@@ -571,6 +583,7 @@ class Evaluator:
             self.loops.pop()
         if s.orelse:
             self.exec_block(s.orelse, body)
+        summary = self._summarise_loop(s, ctx, st, body, mark_events)
         # after the loop: everything the body assigns is unknown
         st.heap = body.heap
         self.havoc(st, names | tnames, [], lid, 'out')
@@ -583,7 +596,43 @@ class Evaluator:
                 old = body.env[nm]
                 t = Term('loopvar', (Const(nm), Const('out')), uid=lid, kind=getattr(old, 'kind', 'unknown'))
                 st.env[nm] = term_as_num(t, old.length is not None, old.kind) if isinstance(old, Num) else t
+        for nm, val in summary.items():
+            st.env[nm] = val
         return True
+
+    def _summarise_loop(self, s, ctx: LoopCtx, st: State, body: State, mark: int) -> Dict[str, Val]:
+        """`for j in range(n): out.append(v(j))` on an empty list, or `out[j] = v(j)` on a freshly allocated array of n
+        elements, is the element-wise array [v(j) | j < n] (what a comprehension would build)"""
+        out: Dict[str, Val] = {}
+        if ctx.lo is None or ctx.hi is None or not (ctx.lo == C(0)) or ctx.sym is None:
+            return out
+        evs = [e for e in self.events[mark:] if ctx in e.loops]
+        if any(len(e.loops) > len(self.loops) + 1 for e in evs if e.kind in ('append', 'store')):
+            return out
+        jat = _single_atom(ctx.sym)
+        back = {jat: sym.idx()}
+        apps = [e for e in evs if e.kind == 'append']
+        stores = [e for e in evs if e.kind == 'store']
+        if len(apps) == 1 and not stores and not apps[0].guard[len(st.guard):] and not apps[0].data.get('extend'):
+            e = apps[0]
+            recv = e.node.func.value if isinstance(e.node, ast.Call) and isinstance(e.node.func, ast.Attribute) else None
+            before = st.env.get(recv.id) if isinstance(recv, ast.Name) else None
+            v = e.data['value']
+            if isinstance(before, Tup) and before.kind == 'list' and not before.items and isinstance(v, Num) and v.length is None:
+                out[recv.id] = Num(sym.subst(v.r, back), ctx.hi, 'list')
+        if len(stores) == 1 and not apps and not stores[0].guard[len(st.guard):] and not stores[0].data.get('aug'):
+            e = stores[0]
+            tgt = e.data.get('target_expr')
+            idx, v = e.data['index'], e.data['value']
+            before = st.env.get(tgt.id) if isinstance(tgt, ast.Name) else None
+            bt = arr_identity(before) if isinstance(before, Num) else before
+            alloc = isinstance(bt, Term) and bt.head in ('lib:numpy.zeros', 'lib:numpy.empty', 'lib:numpy.ones', 'lib:numpy.full', 'lib:numpy.zeros_like',
+                                                         'lib:numpy.empty_like')
+            if alloc and isinstance(idx, Num) and idx.length is None and idx.r == ctx.sym and isinstance(v, Num) and v.length is None:
+                blen = term_as_num(bt, True).length
+                if blen == ctx.hi:
+                    out[tgt.id] = Num(sym.subst(v.r, back), ctx.hi, 'ndarray')
+        return out
 
     def element_of(self, a: Val, idx: Rat) -> Val:
         if isinstance(a, Num) and a.length is not None:
@@ -732,6 +781,17 @@ class Evaluator:
                 return self.eval(node, State())
             finally:
                 self.frames.pop()
+        if kind == 'constattr':
+            mi, node, attrs = r[2]
+            fr = Frame(None, mi)
+            self.frames.append(fr)
+            try:
+                v = self.eval(node, State())
+            finally:
+                self.frames.pop()
+            for a_ in attrs:
+                v = self.getattr_val(v, a_, st, node)
+            return v
         return Term('unresolved', (Const(str(r)),))
 
     def eval_Attribute(self, e, st):
